@@ -722,6 +722,82 @@ func vC04Keys(c *vCtx, maxDocs int) {
 	c.Bound = fmt.Sprintf("all sequences of <= %d of %d documents, optionally the first removed", maxDocs, len(docs))
 }
 
+// vC04Equivalent: operands that are the SAME number at two-decimal fixed point although
+// they differ as float64 (0.3 and 0.1+0.2, 19.99 and 19.9949, 2.5 and 2.504), used
+// together in one AND chain on the same field, with every pair of operators: the chain
+// is the conjunction of its filters, each judged at fixed point (non-negative data).
+func vC04Equivalent(c *vCtx) {
+	cfgS := "metadata equivalent-operands"
+	vals := []float64{0.3, 19.99, 0.05, 2.5, 0, 7}
+	idx := NewRoaringMetadataIndex()
+	var hist []string
+	for i, v := range vals {
+		d := map[string]interface{}{"f": v, "i": i + 5}
+		if err := idx.Add(*NewMetadataNodeWithID(uint32(i+1), d)); err != nil {
+			c.Violation("add-failed", "equivalent", cfgS, hist, err.Error())
+			return
+		}
+		hist = append(hist, fmt.Sprintf("Add(%d,f=%v)", i+1, v))
+	}
+	x, y := 0.1, 0.2
+	pairs := [][2]float64{{0.3, x + y}, {19.99, 19.9949}, {19.99, 19.99}, {0.05, 0.051}, {2.5, 2.504}, {2.496, 2.5}, {7, 7.004}, {0, 0.004}, {0.3, 19.99}}
+	type opf struct {
+		name string
+		mk   func(v float64) Filter
+		ok   func(doc, operand int64) bool
+	}
+	ops := []opf{
+		{"eq", func(v float64) Filter { return Eq("f", v) }, func(d, o int64) bool { return d == o }},
+		{"ne", func(v float64) Filter { return Ne("f", v) }, func(d, o int64) bool { return d != o }},
+		{"gte", func(v float64) Filter { return Gte("f", v) }, func(d, o int64) bool { return d >= o }},
+		{"lte", func(v float64) Filter { return Lte("f", v) }, func(d, o int64) bool { return d <= o }},
+		{"gt", func(v float64) Filter { return Gt("f", v) }, func(d, o int64) bool { return d > o }},
+		{"lt", func(v float64) Filter { return Lt("f", v) }, func(d, o int64) bool { return d < o }},
+	}
+	fx := func(v float64) int64 { return int64(math.Round(v * 100)) }
+	for _, p := range pairs {
+		for _, a := range ops {
+			for _, b := range ops {
+				want := map[uint32]bool{}
+				for i, v := range vals {
+					if a.ok(fx(v), fx(p[0])) && b.ok(fx(v), fx(p[1])) {
+						want[uint32(i+1)] = true
+					}
+				}
+				fa, fb := a.mk(p[0]), b.mk(p[1])
+				name := fmt.Sprintf("f %s %.17g AND f %s %.17g", a.name, p[0], b.name, p[1])
+				for vi, ms := range []MetadataSearch{
+					idx.NewSearch().WithFilters(fa, fb),
+					idx.NewSearch().WithFilters(fb, fa),
+					idx.NewSearch().WithFilterGroups(&FilterGroup{Logic: AND, Filters: []Filter{fa, fb}}),
+					idx.NewSearch().WithFilterGroups(&FilterGroup{Logic: AND, Filters: []Filter{fb, fa, fa}}),
+				} {
+					c.Evaluations++
+					res, err := ms.Execute()
+					if err != nil {
+						c.Violation("search-error", "equivalent", cfgS, hist, name+": "+err.Error())
+						continue
+					}
+					got := map[uint32]bool{}
+					for _, r := range res {
+						got[r.GetId()] = true
+					}
+					if !vSetEq(got, want) {
+						c.Violation("wrong-filter-answer", "equivalent-operands-in-one-chain", cfgS, hist, fmt.Sprintf("%s (variant %d) returned %v, expected %v", name, vi, vSetStr(got), vSetStr(want)))
+					}
+				}
+				if len(want) > 0 && len(want) < len(vals) {
+					c.Nontrivial("equiv|" + name)
+				}
+			}
+		}
+		c.Traces++
+	}
+	c.NewState(cfgS)
+	c.Transitions += int64(len(vals))
+	c.Bound = fmt.Sprintf("%d operand pairs x 36 operator pairs x 4 ways of writing the chain", len(pairs))
+}
+
 // vC04Lists: filters whose VALUES print alike although they differ (a list of one string
 // with a space vs a list of two strings, an empty list vs a list holding the empty string,
 // a bracketed string vs a list, lists in another order) combined in every OR of two
@@ -1035,6 +1111,7 @@ func init() {
 			}})
 			sh = append(sh, vShard{Name: "meta/sweep", Run: func(c *vCtx) { vC04Sweep(c, maxN) }})
 			sh = append(sh, vShard{Name: "meta/lists", Run: vC04Lists})
+			sh = append(sh, vShard{Name: "meta/equivalent", Run: vC04Equivalent})
 			sh = append(sh, vShard{Name: "meta/keys", Run: func(c *vCtx) { vC04Keys(c, maxDocs-1) }})
 			for _, base := range vIDBases {
 				base := base
@@ -1056,6 +1133,11 @@ func init() {
 				fmt.Sscanf(v.Config[i:], " idbase=%d", &b)
 				vIDBase = b
 				defer func() { vIDBase = 0 }()
+			}
+			if v.Config == "metadata equivalent-operands" {
+				vC04Equivalent(c)
+				_, ok := c.viol[v.Sig()]
+				return ok
 			}
 			if v.Config == "metadata lists" {
 				vC04Lists(c)
